@@ -10,6 +10,92 @@ pub mod c05;
 #[cfg(feature = "c10")]
 pub mod c10;
 
+/// One marker harness per cargo feature, so that the driver can tell which
+/// kani-metadata.json belongs to which feature set.
+pub mod feature_marker {
+    #[cfg(feature = "none")]
+    #[kani::proof]
+    pub fn none() {}
+    #[cfg(all(feature = "c01", not(feature = "c01_t")))]
+    #[kani::proof]
+    pub fn c01() {}
+    #[cfg(feature = "c01_t")]
+    #[kani::proof]
+    pub fn c01_t() {}
+    #[cfg(all(feature = "c02", not(feature = "c02_t")))]
+    #[kani::proof]
+    pub fn c02() {}
+    #[cfg(feature = "c02_t")]
+    #[kani::proof]
+    pub fn c02_t() {}
+    #[cfg(all(feature = "c03", not(feature = "c03_t")))]
+    #[kani::proof]
+    pub fn c03() {}
+    #[cfg(feature = "c03_t")]
+    #[kani::proof]
+    pub fn c03_t() {}
+    #[cfg(all(feature = "c04", not(feature = "c04_t")))]
+    #[kani::proof]
+    pub fn c04() {}
+    #[cfg(feature = "c04_t")]
+    #[kani::proof]
+    pub fn c04_t() {}
+    #[cfg(all(feature = "c05", not(feature = "c05_t")))]
+    #[kani::proof]
+    pub fn c05() {}
+    #[cfg(feature = "c05_t")]
+    #[kani::proof]
+    pub fn c05_t() {}
+    #[cfg(all(feature = "c06", not(feature = "c06_t")))]
+    #[kani::proof]
+    pub fn c06() {}
+    #[cfg(feature = "c06_t")]
+    #[kani::proof]
+    pub fn c06_t() {}
+    #[cfg(all(feature = "c09", not(feature = "c09_t")))]
+    #[kani::proof]
+    pub fn c09() {}
+    #[cfg(feature = "c09_t")]
+    #[kani::proof]
+    pub fn c09_t() {}
+    #[cfg(all(feature = "c10", not(feature = "c10_t")))]
+    #[kani::proof]
+    pub fn c10() {}
+    #[cfg(feature = "c10_t")]
+    #[kani::proof]
+    pub fn c10_t() {}
+    #[cfg(all(feature = "c11", not(feature = "c11_t")))]
+    #[kani::proof]
+    pub fn c11() {}
+    #[cfg(feature = "c11_t")]
+    #[kani::proof]
+    pub fn c11_t() {}
+    #[cfg(all(feature = "c12", not(feature = "c12_t")))]
+    #[kani::proof]
+    pub fn c12() {}
+    #[cfg(feature = "c12_t")]
+    #[kani::proof]
+    pub fn c12_t() {}
+    #[cfg(all(feature = "c13", not(feature = "c13_t")))]
+    #[kani::proof]
+    pub fn c13() {}
+    #[cfg(feature = "c13_t")]
+    #[kani::proof]
+    pub fn c13_t() {}
+    #[cfg(all(feature = "c14", not(feature = "c14_t")))]
+    #[kani::proof]
+    pub fn c14() {}
+    #[cfg(feature = "c14_t")]
+    #[kani::proof]
+    pub fn c14_t() {}
+    #[cfg(all(feature = "c19", not(feature = "c19_t")))]
+    #[kani::proof]
+    pub fn c19() {}
+    #[cfg(feature = "c19_t")]
+    #[kani::proof]
+    pub fn c19_t() {}
+}
+
 /// Native replay of solver counter-examples (`cargo kani playback`); the file
 /// is chosen by the driver.
 #[cfg(test)]
